@@ -37,7 +37,8 @@ META = {
     'decided': ['D1 BEGIN only after OK with a GUID',
                 'D2 descriptor negotiation concludes',
                 'D3 mechanisms in order, at most once; exhaustion closes',
-                'D4 no silent transition', 'D5 unknown line closes',
+                'D4 no silent transition', 'D5 unknown line closes, and closing '
+                'is final (no later line of the same read is processed)',
                 'D6 attribute discipline',
                 'D7 line framing independent of read splitting (shared with '
                 'C04-D5/D6)'],
@@ -239,8 +240,12 @@ def run(ctx):
                        'read raises AttributeError (inside the cookie '
                        'mechanism this turns every DBUS_COOKIE_SHA1 attempt '
                        'into ERROR)' % n.attr, nontrivial=False)
+    close_is_final(ctx)
     from .c04 import shared_line_framing
     shared_line_framing(ctx, 'C07.D7', 'C07.D7')
+    from .c09 import per_instance_registries
+    per_instance_registries(ctx, 'C07.D6', ('authentication', 'protocol'),
+                            'client authenticators of different connections share state (mechanisms tried by one count for all)')
     ctx.floor('C07.D7', 3)
     ctx.floor('C07.D1', 4)
     ctx.floor('C07.D2', 6)
@@ -248,6 +253,46 @@ def run(ctx):
     ctx.floor('C07.D4', 20)
     ctx.floor('C07.D5', 4)
     ctx.floor('C07.D6', 10)
+
+
+def close_is_final(ctx):
+    """The extracted machine treats CLOSE as absorbing.  That is true of the
+    running client only if, once the authenticator asked the transport to
+    close, the protocol hands it no further line of the same read: every
+    line given to handleAuthMessage must have the not-disconnecting test of
+    ITS OWN iteration on its path."""
+    prog = ctx.prog
+    cc = prog.cls('client.DBusClientConnection')
+    fi = prog.lookup_method(cc, 'dataReceived')
+    selft = ('param', 'self')
+    heap = {(selft, '_authenticated'): C(False), (selft, '_client'): C(True),
+            (selft, '_firstByte'): C(False)}
+    it = Interp(prog, self_cls=cc, exc_edges=True,
+                inline=lambda q, d: q.endswith('.authMessageLengthExceeded'))
+    n = 0
+    for p in it.run(fi, {}, state=State(heap=heap)):
+        for ev in p.trace:
+            if ev[0] != 'loop':
+                continue
+            for bp in ev[4]:
+                if not any(kind(c[2]) == 'attr' and
+                           c[2][2] == 'handleAuthMessage'
+                           for c in bp.calls()):
+                    continue
+                n += 1
+                guarded = any(kind(c) == 'attr' and c[2] == 'disconnecting'
+                              and pol is False for c, pol in bp.cond)
+                ctx.ob('C07.D5', fi.qualname, 'nothing-processed-after-close',
+                       guarded,
+                       'a server line is handed to the authenticator without '
+                       'a transport.disconnecting test in the same iteration: '
+                       'after the client decided to close (unknown command, '
+                       'bad GUID, mechanisms exhausted) a following "OK ..." '
+                       'in the same read still makes it send BEGIN and '
+                       'switch to binary')
+    if n == 0:
+        ctx.ob('C07.D5', fi.qualname, 'nothing-processed-after-close', False,
+               'no path of dataReceived hands a line to the authenticator')
 
 
 def run_thorough(ctx):
